@@ -201,6 +201,28 @@ class LtsPair:
         if r == "done":
             del self.started[t]
 
+    def finish_impl(self):
+        """release every parked thread, join every started one, read both keys: returns a description of a hard failure
+        (panic, hang, process death) or None"""
+        try:
+            for t in sorted(self.started):
+                self.H(f"t.release T{t}")
+            bad = None
+            for t in sorted(self.started):
+                a = self.H(f"t.join T{t} 15000")
+                if "panic" in a:
+                    bad = bad or f"thread T{t} ({self.op_line(self.started[t])}) panicked"
+                elif a.startswith("timeout") or a == "hang":
+                    bad = bad or f"thread T{t} ({self.op_line(self.started[t])}) never finished (hang)"
+            for k in (K1, K2):
+                a = self.H(f"get {hx(k)}")
+                if "panic" in a or a == "hang" or a.startswith("err"):
+                    bad = bad or f"a later get answered {a[:60]!r}"
+            a = self.H("idle")
+            return bad
+        except Died as d:
+            return f"the process died / hung ({d.why})"
+
     # -- final comparison -------------------------------------------------------------------------
     @staticmethod
     def parse_impl(dump, files, idle):
@@ -322,6 +344,11 @@ def run_case(root, case, second_stop=None):
         p.compare_state()
         return None, p
     except Disagree as d:
+        # model and code disagree somewhere in the schedule. Before calling it a disagreement only, let the real threads run to
+        # their ends: a panic or a hang further down is the property failing on this very schedule
+        hard = p.finish_impl()
+        if hard:
+            return Disagree(d.what + f"; and when the schedule is let run to its end on the real store: {hard}", d.expected, hard), p
         return d, p
     except Died as d:
         return Disagree("a process of the pair died or hung", "an answer", f"{d.why}"), p
